@@ -23,6 +23,21 @@ WNAME = {1: "write_byte", 2: "write_halfword", 4: "write_word", 8: "write_double
 VALS = {1: (0x5A, 0x00), 2: (0xBEEF, 0x0100), 4: (0x11223344, 0x80000001), 8: (0x0102030405060708, 0xFFFFFFFF00000000)}
 
 
+def wval(width, vi):
+    """Value of write alternative vi. 0/1: a value object of the operation's own type; 2: the first value as a plain Python int;
+    3: a small value carried by a NARROWER fixed-width type (the width of a store is the operation's, not the value object's)."""
+    if vi < 2:
+        return VALS[width][vi]
+    return VALS[width][0] if vi == 2 else 0xC3
+
+
+def wobj(width, vi):
+    v = wval(width, vi)
+    if vi < 2:
+        return TY[width](v)
+    return int(v) if vi == 2 else fixedint.UInt8(v)
+
+
 REJECTED = (".data\nv: .word 0x01020304\nv: .word 5\n.text\naddi x1, x0, 1\n", ".data\nv: .word 0x01020304, 0x05060708\n.text\naddi x1, x0, 1\nbeq x0, x0, nowhere\n")
 
 
@@ -52,6 +67,11 @@ class Setup:
                 ops.append(("r", w, a, 0))
                 for vi in range(1 if lite else 2):
                     ops.append(("w", w, a, vi))
+        if not lite:
+            # the same stores with the value as a plain int / carried by a narrower fixed-width type, on two addresses
+            for a in self.addrs[:2]:
+                for w in widths:
+                    ops += [("w", w, a, 2), ("w", w, a, 3)]
         ops.append(("reset", 0, 0, 0))  # Memory.reset(): what load_program does
         # environment event: a simulation of the OTHER architecture is created next to this memory and used once
         ops.append(("other", 0, 0, 0))
@@ -133,7 +153,7 @@ def apply(setup, mem, ref, op, checks=None):
         if kind == "r":
             val = int(getattr(mem, RNAME[width])(a))
         else:
-            getattr(mem, WNAME[width])(a, TY[width](VALS[width][vi]))
+            getattr(mem, WNAME[width])(a, wobj(width, vi))
     except Exception as e:  # noqa
         raised = e
     if cells is None:
@@ -151,7 +171,7 @@ def apply(setup, mem, ref, op, checks=None):
         if kind == "w" and len(invalid) < len(cells):
             # straddling the boundary: the property allows the valid cells before the first invalid one to have been written;
             # mirror the cell-by-cell order so that later reads are still predicted
-            v = VALS[width][vi]
+            v = wval(width, vi)
             for i, x in enumerate(cells):
                 if not setup.valid(x):
                     break
@@ -166,7 +186,7 @@ def apply(setup, mem, ref, op, checks=None):
             checks.append(("unexpected-error", f"{opname(op)} raised {type(raised).__name__}: {raised}"))
         return
     if kind == "w":
-        v = VALS[width][vi]
+        v = wval(width, vi)
         for i, x in enumerate(cells):
             ref[x] = (v >> (cb * i)) & ((1 << cb) - 1)
             ref.get("_straddle", {}).pop(x, None)
@@ -201,7 +221,7 @@ def opname(op):
         return "<a simulation of the other architecture is created and used>"
     if kind == "reload":
         return f"<load_program: a program rejected in its {('data', 'text')[vi]} segment, then a program without data>"
-    return f"{(RNAME if kind == 'r' else WNAME)[width]}({a:#x}{'' if kind == 'r' else ', ' + hex(VALS[width][vi])})"
+    return f"{(RNAME if kind == 'r' else WNAME)[width]}({a:#x}{'' if kind == 'r' else ', ' + hex(wval(width, vi)) + ('', '', ' as a plain int', ' as a UInt8')[vi]})"
 
 
 def run_history(setup, hist):
